@@ -6,7 +6,7 @@
 From Coq Require Import Reals.
 From CC Require Import Base.Prelude Model.Fixed Model.PwlData Model.Taylor.
 From CC Require Import Proofs.FixedBits Proofs.FixedPwl Proofs.FixedNewton Proofs.FixedIsqrt8u Proofs.FixedIsqrt
-  Proofs.FixedGold Proofs.PwlReal Proofs.PwlTotal.
+  Proofs.FixedGold Proofs.PwlReal Proofs.PwlTotal Proofs.PwlAll.
 From CC Require Import Proofs.PwlTables_exp_p10 Proofs.PwlTables_exp_p15 Proofs.PwlTables_sigmoid_p10
   Proofs.PwlTables_sigmoid_p15 Proofs.PwlTables_gelu_p10 Proofs.PwlTables_gelu_p15.
 Open Scope Z_scope.
@@ -51,15 +51,7 @@ Theorem C20_pwl_tables :
   (table_bound sigmoid_fn 0 (45/10000) 15 5 sigmoid_p15_left sigmoid_p15_divisor sigmoid_p15_alphas sigmoid_p15_betas) /\
   (table_bound gelu_fn 0 (7/1000) 10 5 gelu_p10_left gelu_p10_divisor gelu_p10_alphas gelu_p10_betas) /\
   (table_bound gelu_fn 0 (7/1000) 15 5 gelu_p15_left gelu_p15_divisor gelu_p15_alphas gelu_p15_betas).
-Proof.
-  repeat split.
-  - exact exp_p10_table.
-  - exact exp_p15_table.
-  - exact sigmoid_p10_table.
-  - exact sigmoid_p15_table.
-  - exact gelu_p10_table.
-  - exact gelu_p15_table.
-Qed.
+Proof. exact pwl_tables_all. Qed.
 
 (* (a) + (b): the output WORD of the integer evaluation against the exact function, at every
    fixed-point input of (left - divisor, right):
@@ -93,19 +85,11 @@ Definition C20_gelu_p15_close_stmt : Prop := forall x out, word x -> (-139264 < 
   <= 0 * gelu_fn (IZR (sv 64 x) / 32768) + 7/1000 + 1/32768.
 Theorem C20_pwl_close :
   C20_exp_p10_close_stmt /\ C20_exp_p15_close_stmt /\ C20_sigmoid_p10_close_stmt /\ C20_sigmoid_p15_close_stmt /\ C20_gelu_p10_close_stmt /\ C20_gelu_p15_close_stmt.
-Proof.
-  repeat split.
-  - exact exp_p10_total.
-  - exact exp_p15_total.
-  - exact sigmoid_p10_total.
-  - exact sigmoid_p15_total.
-  - exact gelu_p10_total.
-  - exact gelu_p15_total.
-Qed.
+Proof. exact pwl_close_all. Qed.
 (* gelu_fn is 0.5 x (1 + tanh(sqrt(2/pi) (x + 0.044715 x^3))) with the standard library's tanh *)
 Theorem C20_gelu_fn_def : forall x,
   gelu_fn x = 5/10 * x * (1 + tanh (sqrt (2 / PI) * (x + 44715/1000000 * (x * x * x)))).
-Proof. intros x. reflexivity. Qed.
+Proof. exact gelu_fn_def. Qed.
 Close Scope R_scope.
 
 (* ------------------------------------------------------------------ (c) Newton-type operations *)
